@@ -240,9 +240,10 @@ pub fn mutations(templates: &[Template]) -> Vec<Req> {
 
 // ------------------------------------------------------------ size sweep
 
-/// A wire name of exactly `n` octets (3 <= n <= 255) made of labels of `fill`.
+/// A wire name of exactly `n` octets (n >= 3) made of labels of `fill`;
+/// beyond 255 octets the result is an over-long (invalid) name, on purpose.
 pub fn name_of_len(n: usize, fill: u8) -> Vec<u8> {
-    assert!((3..=255).contains(&n));
+    assert!(n >= 3);
     let mut body = n - 1; // octets of labels incl. their length octets
     let mut chunks: Vec<usize> = Vec::new();
     while body > 0 {
@@ -320,6 +321,19 @@ pub fn size_sweep(quick: bool) -> Vec<Req> {
                 }
             }
         }
+    }
+    // (1b) algorithm-name, key-name and QNAME lengths across the 255/256
+    // boundary (over-long names included), everything else short
+    for al in 3..=262usize {
+        let alg = name_of_len(al, b'g');
+        for opt in [None, Some(1232u16)] {
+            push(format!("qname=5 key=4 alg-name-len={al} opt={opt:?} unsigned"), 5, 4, &alg, opt, None);
+            push(format!("qname=244 key=200 alg-name-len={al} opt={opt:?} unsigned"), 244, 200, &alg, opt, None);
+        }
+    }
+    for kl in 256..=262usize {
+        push(format!("qname=5 key={kl} alg=sha256 opt=None unsigned"), 5, kl, &sha256, None, None);
+        push(format!("qname={kl} key=4 alg=sha256 opt=None unsigned"), kl, 4, &sha256, None, None);
     }
     // (2) advertised payload size swept one octet at a time
     let combos: &[(usize, usize)] = if quick { &[(244, 244), (255, 255), (5, 200)] } else { &[(244, 244), (255, 255), (5, 200), (200, 5), (120, 120), (244, 100), (100, 244)] };
